@@ -2,6 +2,7 @@
   C03 — created tapes conform to the MO5 .k7 format.
   `Spec.K7` is the format description; the model is `Tape.inject` (Model/Tape.lean).
 -/
+import MotoModel.Proofs.GenFn
 import MotoModel.Proofs.TapeFormat
 namespace Moto.C03
 open Moto Moto.Tape
@@ -87,5 +88,10 @@ theorem created_tape_is_k7 (w : World) (verbose : Bool) (archive : Str) (srcs : 
 
 /-- non-vacuity: a two-file list fits -/
 example : totalLen (allRaw (fun _ => some [1, 2, 3]) [[97], [98, 46, 98, 97, 115]]) < Gen.Tape.tapeSize := by decide
+
+/-- **C03 (checksum, tied by translation)**: `TapeBlock.computeChecksum`, translated from the source
+    on every run, is the model's checksum for every payload -/
+theorem generated_checksum (data : List Nat) : Gen.Fn.computeChecksum data = Tape.checksum data :=
+  GenFn.computeChecksum_eq data
 
 end Moto.C03
